@@ -60,7 +60,28 @@ def sample_sites(group):
     return ''
 
 
+SITES = os.path.join(VERIF, 'lib', 'props', 'C20_sites.json')
+
+
+def write_sites():
+    """Record, for every listed finding, the access sites (goroutine kind, mode, function, lockset) the table has for it
+    now.  The race driver reports a site that is not in this list as a failing case: a recorded finding that gains an
+    access site (e.g. a rarely executed unguarded write that now happens on every control cycle) has to be re-triaged."""
+    acc = json.load(open(os.path.join(VERIF, 'work', 'accesses', 'accesses.json')))['accesses']
+    res = {}
+    for (loc, ka, kb), n in sorted(existing().items(), key=lambda kv: kv[1]):
+        sites = sorted({'%s %s %s%s' % (a['kind'], a['mode'], a['func'].replace('github.com/markusressel/fan2go/internal/', ''),
+                                        ' [%s]' % ','.join(a['locks']) if a['locks'] else '')
+                        for a in acc if a['loc'] == loc and a['kind'] in (ka, kb)})
+        res['%s|%s|%s' % (loc, ka, kb)] = sites
+    json.dump(res, open(SITES, 'w'), indent=0, sort_keys=True)
+    sys.stderr.write('wrote %s (%d groups)\n' % (SITES, len(res)))
+
+
 def main():
+    if '--sites' in sys.argv:
+        write_sites()
+        return
     ex = existing()
     cur = current_groups()
     nxt = max(ex.values(), default=0) + 1
